@@ -220,6 +220,12 @@ class Check:
                 self.proof_problems.append(f"theorem {t} uses axioms {ax}")
             else:
                 self.discharged.append(t)
+        if self.tier == "thorough":
+            # independent re-check of the compiled property module by Lean's external checker
+            p = subprocess.run(["lake", "env", "leanchecker", self.module], cwd=LEAN, capture_output=True, text=True)
+            self.extra["leanchecker"] = {"module": self.module, "rc": p.returncode, "output": (p.stdout + p.stderr)[-300:]}
+            if p.returncode != 0:
+                self.proof_problems.append("leanchecker rejected " + self.module + ": " + (p.stdout + p.stderr)[-500:])
 
     # -- correspondence / oracle side
     def disagree(self, what: str, detail: dict):
